@@ -123,11 +123,13 @@ class Stored:
         self.links = [(0xFFF, 0xFFFF)] * 6                  # unset links (only their low bits are observable)
         self.pgno = 0
         self.subno = 0
+        self.x28 = None                                     # None or (x28_designations, cs0, cs1, fgclut, bgclut)
     def copy(self):
         s = Stored()
         s.rows = [list(r) for r in self.rows]
         s.flags, s.national, s.have_flof, s.has24 = self.flags, self.national, self.have_flof, self.has24
         s.links = list(self.links); s.pgno, s.subno = self.pgno, self.subno
+        s.x28 = self.x28
         return s
     def raw1000(self):
         out = []
@@ -143,6 +145,7 @@ class Transmission:
         self.rows = rows              # dict row -> 40 bytes with parity
         self.row_order = row_order
         self.x27 = x27                # None or (links, control)
+        self.x28 = None               # None or (cs0, cs1, remap): an X/28/0 format 1 packet of this transmission
         self.pgno = (mag if mag else 8) * 256 + page
     def packets(self):
         out = [header_packet(self.mag, self.page, self.subno, self.c4, self.c5, self.c6, self.ctl, self.text32)]
@@ -168,5 +171,10 @@ class Transmission:
             links, control = self.x27
             s.links = list(links)
             s.have_flof = control >> 3
+        if self.x28 is not None:
+            # packet.c parse_28_29, designation 0: character set codes and colour table re-mapping (EN 300 706 9.4.2)
+            cs0, cs1, remap = self.x28
+            des = (s.x28[0] if s.x28 else 0) | 1
+            s.x28 = (des, cs0, cs1, [0, 0, 0, 8, 8, 16, 16, 16][remap], [0, 8, 16, 8, 16, 8, 16, 24][remap])
         store[key] = s
         return s
